@@ -30,7 +30,7 @@ ANCHORS = [
     "acnportal.acnsim.events.event_queue:EventQueue._from_dict",
     "acnportal.acnsim.events.event:Event.__lt__",
 ]
-REQUIRED = ["fractional_timestamps_of_mixed_float_types", "ctor_events_as:generator", "ctor_events_as:iter", "bulk_queues_over_1000_pending", "returned_lists_mutated_by_the_client", "exhaustive_sequences", "random_ops", "json_round_trips", "op:get_event", "op:get_current_events",
+REQUIRED = ["histories_under_warnings_as_errors", "fractional_timestamps_of_mixed_float_types", "ctor_events_as:generator", "ctor_events_as:iter", "bulk_queues_over_1000_pending", "returned_lists_mutated_by_the_client", "exhaustive_sequences", "random_ops", "json_round_trips", "op:get_event", "op:get_current_events",
             "op:add_events_bulk", "op:constructor_events", "ties_seen", "sim_runs_monitored", "sim_json_round_trips",
             "bulk_queues", "bulk_all_due_retrievals", "custom_precedence_round_trips", "queue_monitor:get_current_events", "queue_monitor:add", "queue_monitor:get_last_timestamp", "suite:queue_monitor:get_event"]
 BUDGET_S = {"quick": 240, "thorough": 3000}
@@ -282,6 +282,23 @@ def _run_rand(case, obs):
     m = Model()
     hist = []
     init = []
+    # every fifth history runs in a process that turns warnings into exceptions (python -W error, pytest's filterwarnings=error):
+    # a call that raises a Warning was refused, so a retrieval must have kept what it did not hand over, and an insertion must
+    # be pending completely or not at all (decided by the queue's own length)
+    strict = case["seed"] % 5 == 1
+    if strict:
+        obs.ev("histories_under_warnings_as_errors")
+        with warnings.catch_warnings():
+            warnings.simplefilter("error")
+            return _run_rand_body(case, obs, c, rng, nts, fl, ts_, m, hist, init, True)
+    return _run_rand_body(case, obs, c, rng, nts, fl, ts_, m, hist, init, False)
+
+
+def _run_rand_body(case, obs, c, rng, nts, fl, ts_, m, hist, init, strict):
+    def refused(what, e_):
+        obs.ev("calls_that_raised_a_warning_as_error")
+        hist.append([what + " raised " + type(e_).__name__])
+
     if rng.random() < 0.5:
         init = [c.make(rng.choice("UPRE"), ts_(), rng.randrange(12)) for _ in range(rng.randint(1, 8))]
         # the constructor's events come as a list, a tuple, or a one-shot iterable (generator, map, iterator)
@@ -307,29 +324,59 @@ def _run_rand(case, obs):
             else:
                 ev = c.make(rng.choice("UPRE"), ts_(), rng.randrange(12))
                 pool.append(ev)
-            q.add_event(ev)
-            m.add(ev)
+            n0 = len(q)
+            try:
+                q.add_event(ev)
+                m.add(ev)
+            except Warning as e_:
+                if not strict:
+                    raise
+                refused("add_event", e_)
+                if len(q) == n0 + 1:
+                    m.add(ev)
             hist.append(["add"] + list(map(str, key_of(ev))))
         elif r < 0.5:
             evs = [c.make(rng.choice("UPR"), ts_(), rng.randrange(12)) for _ in range(rng.randint(0, 6))]
-            q.add_events(evs if rng.random() < 0.6 else rng.choice([tuple(evs), (e_ for e_ in evs), iter(evs)]))
-            for e in evs:
-                m.add(e)
+            n0 = len(q)
+            try:
+                q.add_events(evs if rng.random() < 0.6 else rng.choice([tuple(evs), (e_ for e_ in evs), iter(evs)]))
+                for e in evs:
+                    m.add(e)
+            except Warning as e_:
+                if not strict:
+                    raise
+                refused("add_events", e_)
+                if len(q) == n0 + len(evs):
+                    for e in evs:
+                        m.add(e)
+                elif len(q) != n0:
+                    obs.violate("refused_bulk_insertion_left_a_part_behind", f"add_events raised {type(e_).__name__} with {len(q) - n0} of {len(evs)} events pending", history=hist[-12:])
+                    return
             obs.ev("op:add_events_bulk")
             hist.append(["add_events", len(evs)])
         elif r < 0.7:
             if not m.items:
                 continue
             hist.append(["get"])
-            if not do_get(q, m, obs, hist):
-                return
+            try:
+                if not do_get(q, m, obs, hist):
+                    return
+            except Warning as e_:
+                if not strict:
+                    raise
+                refused("get_event", e_)
         elif r < 0.92:
             # (query times are numpy float64 scalars in this mode: comparing a float32 timestamp with a *python* float is done in
             # float32 under numpy's promotion rules, in float64 after the timestamp has been through JSON - not the queue's doing)
             t = rng.randrange(-1, nts + 1) if not fl else np.float64(float(ts_()) + rng.choice([-1e-9, 0.0, 1e-9, 0.5]))
             hist.append(["cur", t])
-            if not do_cur(q, m, t, obs, hist):
-                return
+            try:
+                if not do_cur(q, m, t, obs, hist):
+                    return
+            except Warning as e_:
+                if not strict:
+                    raise
+                refused("get_current_events", e_)
         else:
             with warnings.catch_warnings():
                 warnings.simplefilter("ignore")
